@@ -52,7 +52,7 @@ CLAIMED = {
    text="is_matched flags vs contribution to the bidder's receipt and published matched price vs clearing price at every settlement (extended rounds with outbid provisional winners included), released flags vs payments, results frozen after settlement; in every distinct state of the query scenarios every by-id and list query with every filter combination and three pagination modes is compared with the stored objects",
    note=TRUST + "; interpretation I6 (a bid received coins iff it contributed under price-then-id priority and its bidder received coins); two listed known findings (ListAllowedBidder / ListVestingQueue ignore auction_id) cannot be repaired without failing the repository's own unedited tests"),
  "C10": dict(cat="model_checking", tech=MC + "; the message is in the menu of every state of a process that links the application like the node binary does", ref="DESIGN.md §5 C10",
-   text="MsgAddAllowedBidder signed by each bidder and an outsider is delivered through the application's message router in every explored state of the fixed / batch / multi-auction lifecycle scenarios and must be rejected with the allow-list byte-identical; no other message changes the allow-list; every accepted bid's signer is listed in the pre-state and every stored bid's bidder is listed in every state",
+   text="MsgAddAllowedBidder signed by each bidder and an outsider is delivered through the application's message router in every explored state of the fixed / batch / multi-auction lifecycle scenarios and must be rejected with the allow-list byte-identical; no other message changes the allow-list; every accepted bid's signer is listed in the pre-state and every stored bid's bidder is listed in every state; in addition the message, really signed by the would-be bidder, is delivered through InitChain/FinalizeBlock/Commit in ten situations and must be refused by the node",
    note=TRUST + "; configuration covered: the import graph of cmd/fundraisingd (app + cmd packages, nothing from testutil/simulation imported by the harness itself); the -X link flag documented for testing builds is by definition out of scope"),
  "C17": dict(cat="fault_enumeration", tech="exhaustive enumeration of (operation, pre-state) x listeners x failing position x failing hook x registration path on the real keeper with recording / vetoing listeners", ref="DESIGN.md §5 C17",
    text="all 426 cases of the product are executed on a second real keeper over the application's own store: exact call sequence, arguments vs message / committed record / real transfers, announced record not yet visible to the listener, veto => wrapped error and nothing committed at the transaction boundary, settlement veto reported by the block hook",
